@@ -1,6 +1,7 @@
 (* Dl/Spec.v — what C18 demands of a blob state, as predicates over the L2 model.  Definitions only. *)
 From ChiaV.Base Require Import Bytes.
-From ChiaV.Dl Require Import Format Map Tree Blob Abs History.
+From ChiaV.Gen Require Import Dl.
+From ChiaV.Dl Require Import Format Map Tree Blob Abs Inv History.
 Open Scope N_scope.
 
 (* the blob's key/value content (through its key cache, as get_keys_values reads it) is the map m *)
@@ -16,8 +17,29 @@ Definition blob_equiv (a b : mblob) : Prop :=
   (forall h, amap_get bytes_eqb h (h2i a) = amap_get bytes_eqb h (h2i b)) /\
   (forall i, In i (free a) <-> In i (free b)).
 
+(* inputs in the range of the Rust types (i64 key / value, 32-byte hash) *)
+Definition in_range (k v : N) (h : bytes) : Prop := k < 2 ^ 64 /\ v < 2 ^ 64 /\ length h = HASH_BYTES.
+Definition op_in_range (o : op) : Prop :=
+  match o with OInsert k v h _ | OUpsert k v h => in_range k v h | _ => True end.
+Definition is_idu (o : op) : bool :=
+  match o with OInsert _ _ _ _ | ODelete _ | OUpsert _ _ _ => true | _ => false end.
+(* room for two more blocks: TreeIndex is u32 and the model does not wrap *)
+Definition room (s : mblob) : Prop := N.of_nat (length (blocks s)) + 2 <= 2 ^ 32.
+
 Section SpecH.
   Variable H : bytes -> bytes.
+
+  (* the per-operation commuting square: the blob operation neither panics nor runs out of fuel, succeeds
+     exactly when the tree operation does, the new blob represents the new tree (Abs = Inv + abstraction),
+     and a failed operation leaves the blob unchanged *)
+  Definition step_ok (o : op) (s : mblob) (ot : option tree) (t : top) : Prop :=
+    let '(x, s') := step2 H o s in
+    let '(ok1, ot1) := step1 H t ot in
+    stops x = false /\ is_ok x = ok1 /\ Abs H s' ot1 /\ (ok1 = false -> s' = s).
+
+  (* before every operation of the history the blob has room *)
+  Fixpoint rooms (ops : list op) (s : mblob) : Prop :=
+    match ops with [] => True | o :: r => room s /\ rooms r (snd (step2 H o s)) end.
 
   Definition good_state (s : mblob) (m : kvmap) : Prop :=
     content_is s m /\
@@ -30,15 +52,12 @@ Section SpecH.
     match ops with
     | [] => (s, m, true)
     | o :: r =>
-        match op_to_top s o with
-        | None => (s, m, true)
-        | Some t =>
-            let '(x, s') := step2 H o s in
-            match x with
-            | Ok _ => run_joint r s' (snd (step0 t m))
-            | Err _ => run_joint r s' (snd (step0 t m))
-            | _ => (s', m, false)
-            end
+        let t := op_to_top s o in
+        let '(x, s') := step2 H o s in
+        match x with
+        | Ok _ => run_joint r s' (snd (step0 t m))
+        | Err _ => run_joint r s' (snd (step0 t m))
+        | _ => (s', m, false)
         end
     end.
 End SpecH.
